@@ -5,6 +5,24 @@ CAFS_TRUSTED = ["BLAKE2b: the Lean implementation (Model/Blake2b.lean) equals mi
                 "harness/internal/memstore as the blob store contract"]
 
 PROPS = {
+    "C06": {
+        "sub": "c06",
+        "trivial": r"^never-trivial$",
+        "timeout_quick": 1200, "timeout_thorough": 3400,
+        "level_text": "Proof: for every store, every upload (any number of blobs and index files) and EVERY crash prefix of its write "
+                      "sequence, no bundle changes visibility and no other metadata key changes before the descriptor lands "
+                      "(C06_upload_invisible_until_done), the bundle is visible and complete afterwards (C06_upload_visible_when_done), "
+                      "existing metadata keys keep their values under any later writes because metadata writes are create-if-absent "
+                      "(C06_immutable_once_visible/_under_crash), a label set is one atomic write (C06_label_atomic); the write order and "
+                      "the create-if-absent flags are facts regenerated from pkg/core on every run (C06_facts). The real upload, label set "
+                      "and diamond commit are crashed at every store write (before/after it lands) and list/latest/labels/download of every "
+                      "bundle plus a retried operation are compared with what the theorems demand.",
+        "level_note": "Trusted: Lean kernel, facts translator, harness+driver, memstore (a single store Put is atomic: the store contract). "
+                      "Keys are structured values in the model; their rendering to distinct path strings is C20's theorem.",
+        "trusted": ["a single store Put is atomic (object-store contract)", "key rendering is injective (C20_render_disjoint)"],
+        "assumptions": ["the new bundle's id is fresh", "a crash is a prefix of the operation's store writes; reads after the crash are made by a new process",
+                        "a retried diamond commit after bundle.yaml landed is C12's known finding and is not replayed here"],
+    },
     "C10": {
         "sub": "c10",
         "trivial": r"^squash .* repo=0 |^sv ",
